@@ -206,6 +206,7 @@ def check(repo, tier):
             sc.inputs = (ss, scr, tcr)
             return sc.call(entry, ss, scr, tcr, threshold=0)
         for ch, sc, res, exc in l2.explore(repo, body, typed=False):
+            l2rules.lost_update_obligations(run, 'C12', 'D2', repo, sc, scen, {SLIM})
             if exc is not None:
                 run.oblige('D1', (entry, scen), False)
                 l2rules.raised_finding(run, 'C12', 'D1', repo, entry, scen, exc)
@@ -359,6 +360,7 @@ def ulam_rule(run, repo, F):
             sc.inputs = (tr, states)
             return sc.call(entry, tr, states, 100)
         for ch, sc, res, exc in l2.explore(repo, body, typed=False):
+            l2rules.lost_update_obligations(run, 'C12', 'D4', repo, sc, scen, {'data_driven.ulam'})
             if exc is not None:
                 run.oblige('D4', (entry, scen), False)
                 l2rules.raised_finding(run, 'C12', 'D4', repo, entry, scen, exc)
